@@ -520,7 +520,7 @@ fn pre(ctx: &Ctx) {
 pub fn property() -> Property {
     Property {
         id: "C09",
-        rule: "presets: every (race 1..8, tribe 1..16, gender 0..1) code, all 0..255 for each of the other 23 appearance bytes, highlight flag 0/1, version, timestamp (incl. 0 and MAX), comment of 0..163 bytes (ASCII + UTF-8, no NUL); own codec pinned to absolute byte positions (magic @0, version @4, checksum @8, appearance @0x10.., voice @0x2A, timestamp @0x2C, comment @0x30..0xD4, XOR of byte << (i mod 24) over 0x10..0xD4), validated against the four checked-in presets; checks: own encode -> Physis parse = value; Physis write(parse(x)) = x byte for byte; Physis write(directly constructed value) -> own decode = value with the documented checksum. gear sets: any subset of the 100 rows, names 1..46 bytes, any subset of the 14 slots, 32-bit item / glamour ids, facewear, unknown fields random (must be preserved), validated against simple.dat; same three checks through the 0x73-obfuscated fixed table. Non-trivial: preset with >= 10 non-default appearance bytes; table with >= 2 sets of >= 3 slots; distinct by hash of the file.",
+        rule: "[round 9: every other directly assembled gear-set value is a list shorter than 100, cut behind its last named set] presets: every (race 1..8, tribe 1..16, gender 0..1) code, all 0..255 for each of the other 23 appearance bytes, highlight flag 0/1, version, timestamp (incl. 0 and MAX), comment of 0..163 bytes (ASCII + UTF-8, no NUL); own codec pinned to absolute byte positions (magic @0, version @4, checksum @8, appearance @0x10.., voice @0x2A, timestamp @0x2C, comment @0x30..0xD4, XOR of byte << (i mod 24) over 0x10..0xD4), validated against the four checked-in presets; checks: own encode -> Physis parse = value; Physis write(parse(x)) = x byte for byte; Physis write(directly constructed value) -> own decode = value with the documented checksum. gear sets: any subset of the 100 rows, names 1..46 bytes, any subset of the 14 slots, 32-bit item / glamour ids, facewear, unknown fields random (must be preserved), validated against simple.dat; same three checks through the 0x73-obfuscated fixed table. Non-trivial: preset with >= 10 non-default appearance bytes; table with >= 2 sets of >= 3 slots; distinct by hash of the file.",
         assumptions: &["bool stored as 0/1; comments <= 163 bytes; names <= 46 bytes (canonical inputs)", "item ids with a bit of the 1_000_000 marker mask set are excluded from the asserted domain while the known finding C09:gear-id-marker-overlap is listed (counted in excluded_known); a dedicated probe keeps exercising one such id", "an absent slot is the bare marker with zero glamour/unknown words; an empty row is the default record (anchored by simple.dat)"],
         pre: Some(pre),
         post: None,
